@@ -83,6 +83,14 @@ static Plan gen_c01(uint64_t seed, const std::string &tier) {
         }
         p.ops.push_back(op_exec(e));
     }
+    if (g_thread_safe_build && r.chance(1, 4)) {   // the same guarantees hold for calls that other threads of the process make afterwards
+        for (auto &o : p.ops) if (o.op == "Exec" && o.ex.success) { o.ex.success = false; o.ex.err = 2; o.ex.ret = -1; }
+        Op b; b.op = "Batch";
+        int nt = (int)r.range(1, 3);
+        for (int t = 0; t < nt; t++) { ExecOp e = gen_exec(r, "t" + std::to_string(t) + "_", 0); gen_outcome(r, e, false); b.threads.push_back({e}); }
+        b.policy = 0; b.sched_seed = r.next();
+        p.ops.push_back(b);
+    }
     return p;
 }
 static Verdict oracle_c01(const Plan &p, const RunResult &r) {
